@@ -42,11 +42,14 @@ def data_chars(text):
     return chars
 
 
-def pick_terms(rng, text, charset='B'):
+def pick_terms(rng, text, charset='B', ctrl_ele=False):
+    """ctrl_ele: take the element separator from the characters Python's str methods treat as whitespace (FS/GS/RS/US, tab)"""
     used = data_chars(text)
     segc = [c for c in SEG_CANDS if c not in used]
     seg_t = rng.choice(segc)
     elec = [c for c in ELE_CANDS if c not in used and c != seg_t]
+    if ctrl_ele:
+        elec = [c for c in ['\x1c', '\x1d', '\x1e', '\x1f', '\t'] if c not in used and c != seg_t] or elec
     ele_t = rng.choice(elec)
     subc = [c for c in (SUB_E if charset == 'E' else SUB_B) if c not in used and c not in (seg_t, ele_t)]
     sub_t = rng.choice(subc)
